@@ -53,14 +53,14 @@ ReqOK(m, res, idx) ==
        /\ idx \in 0 .. (N - 1)                                        \* inside the range
        /\ \A o \in DOMAIN bound : o # m => bound[o] # idx              \* one client per address
        /\ m \in DOMAIN bound => idx = bound[m]                        \* the address first given
-  /\ (res = "drop") <=> (m \notin DOMAIN bound /\ Full)               \* only unknown clients, only when full
+  /\ res = "drop" => m \notin DOMAIN bound                            \* already-bound clients keep being served
+  /\ (m \notin DOMAIN bound /\ Full) => res = "drop"                   \* every address bound: unknown clients get no reply
 
 TraceReq ==
   /\ IsEvent("req") /\ up
   /\ LET e == Trace[l] IN
      /\ C02on => /\ ReqOK(e.mac, e.res, e.idx)
                  /\ e.res = "reply" => e.lease = lease
-                 /\ e.res = "drop"  => e.stop
      /\ bound' = IF e.res = "reply" /\ e.mac \notin DOMAIN bound THEN Ext(bound, e.mac, e.idx) ELSE bound
      /\ promise' = IF e.res = "reply" THEN Ext(promise, e.mac, e.t0 + lease) ELSE promise
   /\ UNCHANGED <<N, lease, up>>
@@ -94,9 +94,10 @@ TraceProbe ==
 TraceCReq ==
   /\ IsEvent("creq") /\ up
   /\ LET e == Trace[l] IN
-     /\ C02on => /\ ReqOK(e.mac, e.res, e.idx)
-                 /\ e.held                                            \* inside the critical section
-                 /\ e.known <=> (e.mac \in DOMAIN bound)               \* the lookup saw the current map
+     /\ C02on => ReqOK(e.mac, e.res, e.idx)
+     \* lock discipline of the present design (drift detector only): inside the critical section, and the
+     \* lookup saw the current map
+     /\ ("DISC" \in Lens) => (e.held /\ (e.known <=> (e.mac \in DOMAIN bound)))
      /\ bound' = IF e.res = "reply" /\ e.mac \notin DOMAIN bound THEN Ext(bound, e.mac, e.idx) ELSE bound
   /\ UNCHANGED <<N, lease, promise, up>>
 
